@@ -260,3 +260,103 @@ func hasKeyValueField2(t types.Type) bool {
 	}
 	return false
 }
+
+// ---------------------------------------------------------------------------------------------
+// R3.13 — the live cache of branch heads follows every change of the DAG's shape
+
+func init() {
+	register(ruleDef{ID: "R3.13", Prop: "C03", Tier: "quick", Floor: 3,
+		Title: "the cached branch heads (what \"<uuid>:<branch>\" resolves to) follow the DAG: every repo-manager operation that adds or removes a node of a registered repo's DAG or renames a node's branch also updates the branch-head cache, which a restart recomputes from the DAG",
+		Fn:    ruleBranchHeadCache})
+}
+
+func ruleBranchHeadCache(r *Run) {
+	w := r.W
+	updatesCache := func(g *ssa.Function) bool {
+		for _, b := range g.Blocks {
+			for _, in := range b.Instrs {
+				if mu, ok := in.(*ssa.MapUpdate); ok {
+					if u, ok := mu.Map.(*ssa.UnOp); ok {
+						if fa, ok := u.X.(*ssa.FieldAddr); ok {
+							if name, _, _ := fieldName(fa); name == "branchToUUID" {
+								return true
+							}
+						}
+					}
+				}
+			}
+		}
+		return false
+	}
+	var reaches func(g *ssa.Function, d int, seen map[*ssa.Function]bool) bool
+	reaches = func(g *ssa.Function, d int, seen map[*ssa.Function]bool) bool {
+		if g == nil || seen[g] || d > 3 || len(g.Blocks) == 0 {
+			return false
+		}
+		seen[g] = true
+		if updatesCache(g) {
+			return true
+		}
+		for _, c := range calls(g) {
+			if reaches(staticCallee(c), d+1, seen) {
+				return true
+			}
+		}
+		return false
+	}
+	n := 0
+	for _, f := range w.RepoFuncs {
+		if relPkg(pkgPathOf(f)) != "datastore" || f.Parent() != nil || len(f.Blocks) == 0 || strings.HasSuffix(w.fposFile(f), "_test.go") {
+			continue
+		}
+		// methods of the repo manager only: they work on registered repos
+		if f.Signature.Recv() == nil || recvName(f.Signature.Recv().Type()) != "repoManager" {
+			continue
+		}
+		what, pos := "", ""
+		for _, b := range f.Blocks {
+			for _, in := range b.Instrs {
+				switch x := in.(type) {
+				case *ssa.MapUpdate:
+					if isNodesMap(x.Map) {
+						what, pos = "adds a DAG node", w.pos(x.Pos())
+					}
+				case *ssa.Call:
+					if bi, ok := x.Call.Value.(*ssa.Builtin); ok && bi.Name() == "delete" && isNodesMap(x.Call.Args[0]) {
+						what, pos = "removes a DAG node", w.pos(x.Pos())
+					}
+				case *ssa.Store:
+					if fa, ok := x.Addr.(*ssa.FieldAddr); ok {
+						if name, _, _ := fieldName(fa); name == "branch" && typeIs(fa.X.Type(), "datastore", "nodeT") {
+							what, pos = "renames a node's branch", w.pos(x.Pos())
+						}
+					}
+				}
+			}
+		}
+		if what == "" {
+			continue
+		}
+		if _, exc := r.exceptionFor("R3.13", fname(f)); exc {
+			continue
+		}
+		n++
+		r.check(reaches(f, 0, map[*ssa.Function]bool{}), fname(f)+":branch-head-cache-updated",
+			what+" and updates the branch-head cache",
+			"the operation "+what+" but never updates the cache of branch heads: until the next restart \"<uuid>:<branch>\" keeps resolving to the old head (or to a removed node), after the restart to the head recomputed from the DAG", pos)
+	}
+	r.check(n >= 3, "datastore:dag-shape-changes", fmt.Sprintf("%d repo-manager operations that change the DAG's shape", n), "too few: rule needs review", "-")
+}
+
+func isNodesMap(v ssa.Value) bool {
+	u, ok := v.(*ssa.UnOp)
+	if !ok {
+		return false
+	}
+	fa, ok := u.X.(*ssa.FieldAddr)
+	if !ok {
+		return false
+	}
+	name, _, _ := fieldName(fa)
+	return name == "nodes" && typeIs(fa.X.Type(), "datastore", "dagT")
+}
